@@ -24,7 +24,7 @@ ASSUMPTIONS = ['initial nodes exist in G, are distinct, and infected/recovered s
 BUDGET = {'quick': 150, 'thorough': 1200}
 CHUNK = {'quick': 40, 'thorough': 200}
 SIMS = simreg.SIR_SIMS + simreg.SIS_SIMS
-REQUIRED = ['barrier_bounds_checked', 'barrier_cases_with_shielded_nodes', 'start_rows_checked', 'form_pairs_compared', 'rho_calls_checked', 'both_rejections_checked', 'wrapper_pairs_compared']
+REQUIRED = ['get_infected_nodes_checked', 'barrier_bounds_checked', 'barrier_cases_with_shielded_nodes', 'start_rows_checked', 'form_pairs_compared', 'rho_calls_checked', 'both_rejections_checked', 'wrapper_pairs_compared']
 MINE = lambda pred: pred in c04.START_PREDS or pred == 'full_data_object_returned'
 
 
@@ -32,6 +32,18 @@ def gen_cases(tier, seed):
     n = {'quick': 18000, 'thorough': 500000}[tier]
     out = []
     kinds = ['start', 'start', 'start', 'forms', 'rho', 'both', 'wrap']
+    # get_infected_nodes (the percolation shortcut to a final outbreak) takes the same initial sets: the initially recovered nodes are
+    # recovered from the start, so the outbreak stays within what the seeds reach without passing through them
+    for j in range(400 if tier == 'quick' else 8000):
+        cs = case_seed(seed, PID + 'gin', j)
+        r = random.Random(cs)
+        desc = gen.random_graph(r, 4, 14, kinds=['path', 'tree', 'grid', 'gnp_sparse', 'cycle', 'two_comp', 'gnp'])
+        desc['labels'] = r.choice(gen.LABEL_SCHEMES)
+        nn = desc['n']
+        I0 = r.sample(range(nn), r.randint(1, 2))
+        rest = [i for i in range(nn) if i not in I0]
+        out.append({'kind': 'gin', 'sim': 'get_infected_nodes', 'graph': desc, 'I0': I0, 'R0': r.sample(rest, r.randint(1, min(3, len(rest)))), 'seed': cs,
+                    'tau': r.choice([1.0, 3.0, 10.0]), 'gamma': r.choice([0.0, 0.5, 1.0]), 'R0_form': r.choice(['list', 'set', 'single'])})
     for k in range(n):
         cs = case_seed(seed, PID, k)
         r = random.Random(cs)
@@ -85,6 +97,35 @@ def run_case(case):
     sim = case['sim']
     n = case['graph']['n']
     mode = 'full' if case.get('full') else 'arrays'
+    if kind == 'gin':
+        import EoN
+        G, lab = gen.build_graph(case['graph'])
+        I0 = [lab(i) for i in case['I0']]
+        R0 = [lab(i) for i in case['R0']]
+        r0arg = R0[0] if (case['R0_form'] == 'single' and len(R0) == 1) else (set(R0) if case['R0_form'] == 'set' else list(R0))
+        simcase.seed_all(case['seed'])
+        try:
+            got = set(EoN.get_infected_nodes(G, case['tau'], case['gamma'], initial_infecteds=list(I0), initial_recovereds=r0arg))
+        except Exception as e:
+            viol(res, 'get_infected_nodes|exception:%s' % simcase.exc_key(e), {'err': repr(e)})
+            return res
+        blocked = set(R0)
+        seen = set(I0)
+        stack = list(seen)
+        while stack:
+            u = stack.pop()
+            for v in G.neighbors(u):
+                if v not in seen and v not in blocked:
+                    seen.add(v)
+                    stack.append(v)
+        bump(res, 'get_infected_nodes_checked')
+        if not set(I0) <= got or got & blocked or not got <= seen:
+            viol(res, 'get_infected_nodes|initially_recovered_nodes_are_recovered_from_the_start', {'returned': sorted(map(repr, got))[:8], 'R0': sorted(map(repr, blocked)),
+                                                                                                 'reachable_without_them': sorted(map(repr, seen))[:8]})
+        if len(seen) < n - len(blocked):
+            res['nontrivial'] = 'gin:%s:%s:%s' % (gen.iso_key(case['graph']), case['I0'], case['R0'])
+            res['sample'] = {'kind': 'gin', 'graph': case['graph'], 'I0': case['I0'], 'R0': case['R0'], 'returned': len(got)}
+        return res
     if kind == 'start':
         call, out, err = c04.run_monitored(case, res, MINE)
         if err is not None:
